@@ -211,6 +211,10 @@ theorem accepted_on_chain_is_node_complete (recover : Bytes → Option Addr) (si
 /-- The two contract loops have, in the sources, the shape the model gives them (textual facts, re-extracted every run). -/
 theorem contract_loops_as_modelled : solLoopShape = true ∧ ralLoopShape = true := by decide
 
+/-- The Solidity `quorum()` computes in full-width `uint` (no narrower parameter type or call-site cast that would make the
+checked multiplication revert for large sets). -/
+theorem sol_quorum_full_width : solQuorumWidth = 256 := by decide
+
 /-- Non-vacuity: 3 of 4 guardians, signatures at indices 0, 2, 3 — complete for the node and accepted by both contracts. -/
 example :
     let rec4 : Bytes → Option Addr := fun s => match s with | [10] => some [1] | [30] => some [3] | [40] => some [4] | _ => none
